@@ -11,6 +11,7 @@ import Heathcliff.Proofs.C02PH
 import Heathcliff.Proofs.C02PW
 import Heathcliff.Proofs.C02PG
 import Heathcliff.Proofs.C02PGW
+import Heathcliff.Proofs.C02PF
 
 /- Property theorems only (statements verbatim; proofs are the helper lemmas of Heathcliff/Proofs). -/
 namespace HC.C02
@@ -598,5 +599,38 @@ theorem relinearize_enc : type_of% @HC.c02p_step_relin := @HC.c02p_step_relin
 theorem hom_program_bgv_levelled_example : type_of% @HC.hom_program_bgv_levelled_example := @HC.hom_program_bgv_levelled_example
 theorem hom_program_bgv_levelled_example_val : type_of% @HC.hom_program_bgv_levelled_example_val := @HC.hom_program_bgv_levelled_example_val
 theorem chainOK_example : type_of% @HC.c02p_wChainOK := @HC.c02p_wChainOK
+
+/-! ### BFV: the program theorem for the ring operations (Model/Program.lean `FProg`; Proofs/C02PF.lean).  PARTIAL with respect to the
+    operation list of the property: BFV plaintext operations (the Δ-scaling of `multiply_add_plain` / `multiply_sub_plain` and the
+    `multiply_plain` routes), modulus switching and relinearisation are proved per operation elsewhere (C01, C05U, C04K) but NOT composed
+    into the BFV induction. -/
+
+/-- HOM (BFV, ring operations).  For every BFV level satisfying the constructor bundles (`c02f_LevelOK`: `MulOK`, `DecOK`, BEHZ window for
+    sizes ≤ 16), every secret with `‖s‖₁ ≤ S`, EVERY program over negate / add / sub (all size pairs) / multiply, square (BEHZ, all size
+    pairs), inputs canonical in coefficient form with invariant noise `‖[t·x_i]_Q‖∞ ≤ (inB i).2 < Q/2` and message part ≡ `M i` (mod t):
+    if the model does not refuse, the decidable bookkeeping `FProg.noiseUB` (sum of noises for add / sub, the BEHZ growth bound `c02x_F / 2^34`
+    for products, `2V < Q` checked at every node) returns `(s, V)` and `V` is below the BEHZ decryption threshold
+    `2·γ·V + 2·|q|·Q ≤ Q·γ`, then `bfvDecrypt (eval prog)` succeeds and equals the shadow program in ℤ[X]/(X^N+1) read modulo t. -/
+theorem hom_program_bfv_partial {l : Level} {T : Array NTTTables} (h : c02f_LevelOK l T) {sk : Array Int} (hsk : sk.size = l.n) {S : Nat}
+    (hS : ∑ k ∈ range l.n, (sk.getD k 0).natAbs ≤ S) (cts : Nat → Ct) (M : Nat → Nat → Int) (inB : Nat → Nat × Nat) (prog : FProg)
+    {r : Ct} (hin : ∀ i ∈ prog.ctInputs, c02f_Enc l sk (cts i) (M i) (inB i).2 ∧ (cts i).polys.size = (inB i).1)
+    (hev : prog.eval l T cts = .ok r) {s V : Nat}
+    (hub : prog.noiseUB l.n l.t.value l.size l.tool.baseQ.prod S inB = some (s, V))
+    (hγ : 2 * l.tool.gamma.value * V + 2 * l.size * l.tool.baseQ.prod ≤ l.tool.baseQ.prod * l.tool.gamma.value) :
+    bfvDecrypt l sk r = .ok (Spec.trim (Array.ofFn (n := l.n) fun j => Spec.imod (prog.shadow l.n M j.val) l.t.value)) :=
+  HC.hom_program_bfv_partial h hsk hS cts M inB prog hin hev hub hγ
+
+/-- the induction behind it -/
+theorem hom_program_bfv_inv : type_of% @HC.c02f_prog_inv := @HC.c02f_prog_inv
+/-- BFV negate / add / sub on exact phases of coefficient-form ciphertexts, all size pairs -/
+theorem ctNegate_exact_phase_coeff : type_of% @HC.c02f_negate_ph := @HC.c02f_negate_ph
+theorem ctTranslate_exact_phase_coeff : type_of% @HC.c02f_translate_ph := @HC.c02f_translate_ph
+/-- invariant noise and message part of a linear combination `x_r ≡ α·x_a + β·x_b (mod Q)` -/
+theorem bfv_noise_linear : type_of% @HC.c02f_noise_lin := @HC.c02f_noise_lin
+/-- the BEHZ product as a step of the induction (from `bfvMultiply_noise`, `bfvMultiply_canon`) -/
+theorem bfvMultiply_enc : type_of% @HC.c02f_step_mul := @HC.c02f_step_mul
+/-- decryption below the BEHZ threshold; the input hypothesis from any split `t·x = Q·m + ν` with small ν -/
+theorem bfvDecrypt_of_enc : type_of% @HC.c02f_decrypt_of_enc := @HC.c02f_decrypt_of_enc
+theorem bfv_enc_of_split : type_of% @HC.c02f_enc_of_split := @HC.c02f_enc_of_split
 
 end HC.C02
